@@ -64,6 +64,11 @@ def mutations(rng, spec):
             if "map" in m:
                 m["map"] = m["map"] + [max(m["map"] + [0]) + 1]
             yield "item-appended", m
+    if key and len(items) >= 2:
+        i, j = rng.sample(range(len(items)), 2)
+        if rc.spec_diff(items[i], items[j]):
+            m = cp(); m[key][i] = copy.deepcopy(items[j]); yield "item-replaced-by-copy-of-sibling", m
+            m = cp(); m[key][i], m[key][j] = copy.deepcopy(items[j]), copy.deepcopy(items[i]); yield "items-swapped", m
     # ---- labels ----------------------------------------------------------------------------
     if items and ("label" in items[0] or t == "optical"):
         i = rng.randrange(len(items))
